@@ -123,6 +123,10 @@ class HandlerTranslator:
                 if t.attr == '_map' and isinstance(v, ast.Call) and isinstance(v.func, ast.Attribute) and v.func.attr == 'lstrip' and len(v.args) == 1 \
                         and isinstance(v.args[0], ast.Constant) and v.args[0].value == 'spaces/':
                     return ('SMapStrip', self.expr(v.func.value))
+                # self._map = value[len('spaces/'):] if value.startswith('spaces/') else value
+                if t.attr == '_map' and isinstance(v, ast.IfExp) and ast.unparse(v.test).endswith(".startswith('spaces/')") and isinstance(v.test, ast.Call) \
+                        and ast.unparse(v.body) == ast.unparse(v.test.func.value) + "[len('spaces/'):]" and ast.unparse(v.orelse) == ast.unparse(v.test.func.value):
+                    return ('SMapPrefix', self.expr(v.orelse))
                 return ('SAssign', t.attr, self.expr(v))
         raise Untranslatable('statement ' + ast.unparse(s)[:80])
 
@@ -274,6 +278,7 @@ def ss(s):
     if k == 'SLet': return '(SLet %s %s)' % (coq_str(s[1]), ex(s[2]))
     if k == 'SRoster': return '(SRoster %s %d%%N)' % (ex(s[1]), s[2])
     if k == 'SMapStrip': return '(SMapStrip %s)' % ex(s[1])
+    if k == 'SMapPrefix': return '(SMapPrefix %s)' % ex(s[1])
     raise AssertionError(s)
 
 
@@ -416,6 +421,8 @@ def coq_files(ts):
         i.append('(* the roster after any accepted history is the fold of the roster calls\' merges *)')
         i.append('Theorem inst_roster_%s : forall evs st st\', run_events_strict ctl_%s st evs = (st\', None) -> players_fold ctl_%s (st_players st) evs = (st_players st\', None).' % (d, d, d))
         i.append('Proof. exact (roster_history ctl_%s eq_refl). Qed.' % d)
+        i.append('(* the map setter removes the prefix (not a character set) *)')
+        i.append('Theorem inst_map_%s : assoc_get "<map>" (c_handlers ctl_%s) = Some {| h_params := ["value"]; h_body := [Simple (SMapPrefix (EVar "value"))] |}.\nProof. reflexivity. Qed.' % (d, d))
         i.append('(* only the three roster calls can change the roster; no handler but the map setter writes _map, none but the player hook writes _player_id *)')
         i.append('Theorem inst_frames_%s : only_these_merge_rosters ctl_%s [%s] = true /\\ others_dont_write ctl_%s "<map>" "_map" = true /\\ others_dont_write ctl_%s "<player>" "_player_id" = true.' % (
             d, d, '; '.join(coq_str(k) for k in ROSTER_KEYS), d, d))
